@@ -910,4 +910,5 @@ func c04Driver(d *fw.D) {
 	if d.Counters["reconf_phases_with_need_between_old_and_new_maximum"] == 0 {
 		d.Inconclusive("limits reconfigured on a live runtime: no program had a need between the old and the new maximum")
 	}
+	c04LongDriver(d)
 }
